@@ -201,7 +201,7 @@ func buildArgv(k cliCase, names []string) []string {
 
 // C15: gxz command line.
 func C15(c *hx.Ctx) {
-	c.Rule = "invocations generated by TLC from GxzCli (operation x flag subsets x -F forms x presets x option layouts incl. bundling, options after operands and '--' x 1-3 operands from name classes x content classes x pre-existing target x input mode), exhaustively for a reduced alphabet and by seeded random walks for the full one, each with the outcome the specification predicts per file; realised in a fresh directory and run with the binary built from /repo; plus the preset 0-9 round trips for both formats and xz-utils interoperability in both directions when installed; non-trivial = invocation with >= 2 operands, a failing member, or a non-default layout"
+	c.Rule = "invocations generated by TLC from GxzCli (operation x flag subsets x -F forms x presets x option layouts incl. bundling, options after operands and '--' x 1-3 operands from name classes x content classes x pre-existing target x input mode), exhaustively for a reduced alphabet and by seeded random walks for the full one, each with the outcome the specification predicts per file; realised in a fresh directory and run with the binary built from /repo; plus the preset 0-9 round trips for both formats and xz-utils interoperability in both directions when installed; non-trivial = invocation with >= 2 operands, a failing member, or a non-default layout; plus GxzMain (personalities, -h/-L/-V, bad -F, malformed command lines, standard input, special operands), Sniff (header predicates), name stems ending in suffix characters, multi-stream operands, stale temporary files, unwritable standard output, default preset"
 	c.Assumptions = []string{"TLC (GxzCli)", "reference decoders judge produced files", "xz-utils only as optional cross-check", "warning texts, -q/-v output and terminal behaviour are not predicted"}
 	syscall.Umask(0o022)
 	c.DesignCheck(tlc.Opts{Module: "GxzCli", Cfg: "GxzCli_mc.cfg", Workers: 8, Timeout: 5 * time.Minute}, []string{"ChooseOp", "ChooseFlags", "ChooseFmt", "AddFile", "Finish"})
